@@ -7,6 +7,7 @@ CONSTANTS
   MaxIdx = 24
   MaxLen = 0
   Canonical = FALSE
+  MaxRedesc = 0
 SPECIFICATION TraceSpec
 INVARIANT C46_RowsAtStop
 INVARIANT C46_RowsConserved
